@@ -11,6 +11,9 @@ Import ListNotations.
 Local Open Scope N_scope.
 
 (* ------------------------------------------------------------------ the request handlers with the repairs as a parameter *)
+Definition mws_of_fx (fx : bfixes) (files : list (list N * block)) : mws :=
+  map (fun x => (fst x, analyse_fx fx (snd x))) files.
+
 Section Fx.
   Variable fx : bfixes.
   Variable files : list (list N * list N).
@@ -19,7 +22,7 @@ Section Fx.
     match parse_all files with
     | None => ASkip
     | Some ps =>
-      let w := mws_of ps in
+      let w := mws_of_fx fx ps in
       match ws_file w f, request_name (bytes_of files f) line0 col (negb (bf_doc_end fx)) with
       | Some fi, Some (Some s) =>
         match define_at w f fi s (zl line0) (Z.of_N col) with Some l => ALocs l | None => ASkip end
@@ -32,13 +35,41 @@ Section Fx.
     match parse_all files with
     | None => ASkip
     | Some ps =>
-      let w := mws_of ps in
+      let w := mws_of_fx fx ps in
       match ws_file w f, request_name (bytes_of files f) line0 col (negb (bf_doc_end fx)) with
       | Some fi, Some (Some s) =>
         match references_at_fx fx mode w f fi s (zl line0) (Z.of_N col) with Some l => ALocs l | None => ASkip end
       | Some _, Some None => ALocs []
       | _, _ => ASkip
       end
+    end.
+
+  Definition run_complete_fx (f : list N) (line0 col : N) : option (list (list N)) :=
+    match parse_all files with
+    | None => None
+    | Some ps =>
+      let w := mws_of_fx fx ps in
+      match ws_file w f, offset_of (bytes_of files f) line0 col 0 with
+      | Some fi, Some off =>
+        match complete_prefix (bytes_of files f) off with
+        | CutName pre => Some (complete_at w fi pre (zl line0) (Z.of_N col))
+        | CutInvalid => Some []
+        | CutUnsupported => None
+        end
+      | _, _ => None
+      end
+    end.
+
+  Definition complete_deviates_fx (f : list N) (line col : N) : bool :=
+    all_in_fragment files &&
+    match spec_occ files f line col, offset_of (bytes_of files f) line col 0 with
+    | Some o, Some off =>
+      match complete_prefix (bytes_of files f) off, run_complete_fx f line col with
+      | CutName pre, Some labels =>
+        negb (complete_ok (spec_ws files) f (env_names (s_env o) []) pre (zl line) (Z.of_N col) labels)
+      | _, _ => false
+      end
+    | _, _ => false
     end.
 
   Definition refs_deviates_fx (mode : refmode) (f : list N) (line col : N) : bool :=
@@ -74,7 +105,47 @@ Section Fx.
     end.
 End Fx.
 
+(* the full statement of C14 for a variant of the code, and its refutation by one deviating cursor *)
+Definition complete_full_stmt_fx (fx : bfixes) : Prop :=
+  forall files f line col o labels pre off,
+    all_in_fragment files = true -> spec_occ files f line col = Some o ->
+    offset_of (bytes_of files f) line col 0 = Some off -> complete_prefix (bytes_of files f) off = CutName pre ->
+    run_complete_fx fx files f line col = Some labels ->
+    complete_ok (spec_ws files) f (env_names (s_env o) []) pre (zl line) (Z.of_N col) labels = true.
+
+Lemma complete_full_refuted_by_fx fx files f line col :
+  complete_deviates_fx fx files f line col = true -> ~ complete_full_stmt_fx fx.
+Proof.
+  intros Hd Hfull. unfold complete_deviates_fx in Hd.
+  apply andb_true_iff in Hd. destruct Hd as [Hfr Hd].
+  destruct (spec_occ files f line col) as [o|] eqn:Ho; [|discriminate].
+  destruct (offset_of (bytes_of files f) line col 0) as [off|] eqn:Hoff; [|discriminate].
+  destruct (complete_prefix (bytes_of files f) off) as [pre| |] eqn:Hpre; try discriminate.
+  destruct (run_complete_fx fx files f line col) as [labels|] eqn:Hr; [|discriminate].
+  rewrite (Hfull files f line col o labels pre off Hfr Ho Hoff Hpre Hr) in Hd. discriminate.
+Qed.
+
+Lemma complete_full_stmt_fx_deployed : complete_full_stmt_fx deployed <-> complete_full_stmt.
+Proof. split; intros H; exact H. Qed.
+
 (* ------------------------------------------------------------------ `_fx deployed` is the deployed code *)
+Lemma tr_exp_fx_deployed : tr_exp_fx deployed = tr_exp.
+Proof. reflexivity. Qed.
+Lemma tr_stat_fx_deployed : tr_stat_fx deployed = tr_stat.
+Proof. reflexivity. Qed.
+Lemma tr_block_fx_deployed : tr_block_fx deployed = tr_block.
+Proof. reflexivity. Qed.
+Lemma analyse_fx_deployed : analyse_fx deployed = analyse.
+Proof. reflexivity. Qed.
+Lemma mws_of_fx_deployed ps : mws_of_fx deployed ps = mws_of ps.
+Proof. reflexivity. Qed.
+Lemma run_complete_fx_deployed files f line0 col :
+  run_complete_fx deployed files f line0 col = run_complete files f line0 col.
+Proof. reflexivity. Qed.
+Lemma complete_deviates_fx_deployed files f line col :
+  complete_deviates_fx deployed files f line col = complete_deviates files f line col.
+Proof. reflexivity. Qed.
+
 Lemma skip_define_fx_deployed F d X l : skip_define_fx deployed F d X l = skip_define F d X l.
 Proof. reflexivity. Qed.
 
